@@ -1,1 +1,3 @@
+pub mod c18;
+pub mod c19;
 pub mod ops;
